@@ -53,6 +53,9 @@ def outcome(data):
     try:
         d = collada.Collada(io.BytesIO(data), ignore=[DaeError])
         s = snap.snapshot(d)
+        # what the recorded errors SAY, with the document's namespace URI (and addresses) blanked: the same text under every URI
+        uri = ET.fromstring(data).tag.split('}')[0].lstrip('{')
+        s['error_messages'] = [re.sub(r'0x[0-9a-fA-F]+', '0x', str(e).replace(uri, 'NS')) for e in d.errors]
         if s.get('asset') and not any(isinstance(c.tag, str) and c.tag.split('}')[-1] == 'asset' and any(g.tag.split('}')[-1] == 'created' for g in c)
                                       for c in ET.fromstring(data)):
             s['asset']['created'] = s['asset']['modified'] = None     # defaults to the time of loading
@@ -96,6 +99,12 @@ def with_bound_materials(data):
 UNSUPPORTED = b'<linestrips count="1"><input semantic="VERTEX" source="#nowhere" offset="0"/><p>0 1 2</p></linestrips></mesh>'
 
 
+def unsupported(data):
+    """COLLADA elements the library does not support, in the document's own namespace: a primitive kind in a mesh, a transform in a node"""
+    data = data.replace(b'</mesh>', UNSUPPORTED, 1)
+    return re.sub(rb'(<node(?: [^>]*[^/>])?>)', rb'\1<skew sid="sk">45 1 0 0 0 1 0</skew>', data, count=1)
+
+
 def make_doc(rng, i):
     """(label, bytes in NS141 default-namespace form, replay info)"""
     if i % 3 == 2:
@@ -115,7 +124,7 @@ def make_doc(rng, i):
         return 'damaged', data, dict(gen='docgen', seed=seed, perm=(i % 2 == 0), damaged=True)
     if i % 4 == 1 and b'</mesh>' in data:
         # a COLLADA element the library does not support, in the document's own namespace: reported the same way under every URI
-        data = data.replace(b'</mesh>', UNSUPPORTED, 1)
+        data = unsupported(data)
         return 'unsupported', data, dict(gen='docgen', seed=seed, perm=(i % 2 == 0), damaged=False, unsupported=True)
     return 'docgen', data, dict(gen='docgen', seed=seed, perm=(i % 2 == 0), damaged=False)
 
@@ -130,7 +139,7 @@ def rebuild(rep):
         data = re.sub(rb'url="#geom', b'url="#missing', data, count=1)
         data = re.sub(rb'<p>\s*(\d+)', b'<p>x\\1', data, count=1)
     if rep.get('unsupported'):
-        data = data.replace(b'</mesh>', UNSUPPORTED, 1)
+        data = unsupported(data)
     return data
 
 
